@@ -2,8 +2,8 @@
 
    Clause table (statement of C16 -> what states it):
    | clause                                                      | stated by                                                   | status |
-   | stored record is read back identically from the patched object | C16_roundtrip_annotations, C16_roundtrip_pending          | full for the annotation progress storage (every hash, prefix, v1/v2, verbosity, id, record, body, pending patch); status / multi / smart progress storages and the diff-base storages: D-tied on the same inputs + round-trip monitor (status round trip needs total records: RFC 7386 merges objects recursively) |
-   | can be purged completely                                    | C16_purged_completely                                       | full for the annotation storage (fresh or any pending patch, all keys incl. v1 and -ofDRS); status: D-tied + monitor |
+   | stored record is read back identically from the patched object | C16_roundtrip_annotations, C16_roundtrip_pending, C16_status_store_reads_merge, C16_roundtrip_status_first_store | full for the annotation progress storage (every hash, prefix, v1/v2, verbosity, id, record, body, pending patch); status progress storage: C16_status_store_reads_merge (exact: the read-back is the RFC 7386 merge of the record into the old one, every path/id/record/body) and C16_roundtrip_status_first_store (identical for a first store of a flat null-free record); multi / smart progress storages and the diff-base storages: D-tied on the same inputs + round-trip monitor |
+   | can be purged completely                                    | C16_purged_completely, C16_purged_completely_status         | full for the annotation storage (fresh or any pending patch, all keys incl. v1 and -ofDRS); status storage: C16_purged_completely_status (fresh patch, every stanza path; pending patch: D-tied + monitor) |
    | never disturbs other handlers' records / other prefixes / user data | C16_isolation_annotations (store), C16_isolation_purge (purge, any pending patch), C16_isolation_touch (touch) | full for the annotation storage; status: monitor |
    | names are valid Kubernetes names                            | C16_suffix_shape, C16_len, C16_charset, C16_valid_names_partial / _refuted (F2), C16_v1_len_partial / _refuted (F12) | partial: exactly the two recorded findings are excluded |
    | identical across restarts                                   | make_keys is a function of (prefix, v1, is-DRS, id) in the model; D:keys ties it to two fresh storage instances | by construction + monitor nondeterministic-name |
@@ -169,4 +169,63 @@ Example C16_isolation_touch_nonvacuous :
   /\ "my.op/h1"%string <> ("my.op" ++ "/" ++ marker_name)%string.
 Proof.
   cbv zeta. split; [vm_compute; reflexivity|]. split; [vm_compute; intros [E|[]]; discriminate|vm_compute; discriminate].
+Qed.
+
+(* Purged completely, status progress storage (fresh patch): whatever is on the object, after the purge the record cannot
+   be read back from the object as patched by an RFC 7386 server, for every stanza path, touch field, id and body.  Guard:
+   where the storage's stanza exists on the object it is a mapping (on anything else the real fetch raises, purge or not). *)
+Theorem C16_purged_completely_status : forall dg field tf nw key body patch,
+  (forall v, resolve body field = Some v -> is_obj v = true) ->
+  ppurge dg (PStatus field tf nw) key body (JObj []) = Ok patch ->
+  pfetch dg (PStatus field tf nw) key (merge body patch) = Ok None.
+Proof. exact status_purge_complete. Qed.
+Print Assumptions C16_purged_completely_status.
+
+(* the premises are met by an object that carries the record (the purge writes a tombstone) *)
+Example C16_purged_completely_status_nonvacuous :
+  let body := JObj [("status", JObj [("kopf", JObj [("progress", JObj [("h1", JObj [("retries", JNum 1)]); ("h2", JObj [])])])])]%string in
+  let field := ["status"; "kopf"; "progress"]%string in
+  (forall v, resolve body field = Some v -> is_obj v = true)
+  /\ ppurge const_dg (PStatus field ["status"; "kopf"; "dummy"]%string false) "h1" body (JObj [])
+     = Ok (JObj [("status", JObj [("kopf", JObj [("progress", JObj [("h1", JNull)])])])]%string)
+  /\ pfetch const_dg (PStatus field ["status"; "kopf"; "dummy"]%string false) "h1" body = Ok (Some (JObj [("retries", JNum 1)]%string)).
+Proof.
+  cbv zeta. split; [intros v E; vm_compute in E; injection E as <-; reflexivity|]. split; vm_compute; reflexivity.
+Qed.
+
+(* Read back, status progress storage (fresh patch): what is read back from the object as patched by an RFC 7386 server is
+   EXACTLY the server's merge of the stored record into the record the object had (none: JNull) - every stanza path, id,
+   record and body.  "Identically" therefore holds iff that merge is the identity on the record; RFC 7386 merges mappings
+   field by field and drops nulls, which is why the framework stores total records there ... *)
+Theorem C16_status_store_reads_merge : forall dg field tf key record body patch,
+  pstore dg (PStatus field tf false) key record body (JObj []) = Ok patch ->
+  pfetch dg (PStatus field tf false) key (merge body patch)
+  = Ok (Some (merge (sub_or_null (resolve body (field ++ [key]))) (JObj record))).
+Proof. exact status_store_reads_merge. Qed.
+Print Assumptions C16_status_store_reads_merge.
+
+(* ... and the first store of a record without nulls and nested mappings is read back identically (as the mapping built
+   from its fields in order; for a record with distinct field names that is the record up to order). *)
+Theorem C16_roundtrip_status_first_store : forall dg field tf key record body patch,
+  resolve body (field ++ [key]) = None ->
+  (forall k v, In (k, v) record -> is_obj v = false /\ v <> JNull) ->
+  pstore dg (PStatus field tf false) key record body (JObj []) = Ok patch ->
+  pfetch dg (PStatus field tf false) key (merge body patch)
+  = Ok (Some (JObj (fold_left (fun t kv => set (fst kv) (snd kv) t) record []))).
+Proof. exact status_first_store_roundtrip. Qed.
+Print Assumptions C16_roundtrip_status_first_store.
+
+Example C16_roundtrip_status_nonvacuous :
+  let body := JObj [("status", JObj [("kopf", JObj [("progress", JObj [("h2", JObj [])])])])]%string in
+  let field := ["status"; "kopf"; "progress"]%string in
+  let record := [("started", JStr "2020"); ("retries", JNum 1); ("success", JBool false)]%string in
+  resolve body (field ++ ["h1"%string]) = None
+  /\ (forall k v, In (k, v) record -> is_obj v = false /\ v <> JNull)
+  /\ pstore const_dg (PStatus field ["status"; "kopf"; "dummy"]%string false) "h1" record body (JObj [])
+     = Ok (JObj [("status", JObj [("kopf", JObj [("progress", JObj [("h1", JObj record)])])])]%string)
+  /\ fold_left (fun t kv => set (fst kv) (snd kv) t) record [] = record.
+Proof.
+  cbv zeta. split; [reflexivity|]. split.
+  - intros k v [E|[E|[E|[]]]]; injection E as <- <-; split; (reflexivity || discriminate).
+  - split; vm_compute; reflexivity.
 Qed.
